@@ -17,14 +17,19 @@ PARTS = ["c08_codecs", "c08_encodings", "c08_thrift"]
 
 
 def run(chk, tier, replay):
-    ran = []
+    from concurrent.futures import ThreadPoolExecutor
+    mods = []
     for p in PARTS:
         try:
-            mod = importlib.import_module("checks." + p)
+            mods.append((p, importlib.import_module("checks." + p)))
         except ImportError:
             continue
-        mod.run_part(chk, tier)
-        ran.append(p)
+    # the parts are independent (own TLC runs, own harness binaries): run them side by side
+    with ThreadPoolExecutor(max_workers=len(mods) or 1) as ex:
+        futs = [(p, ex.submit(m.run_part, chk, tier)) for p, m in mods]
+        for p, f in futs:
+            f.result()
+    ran = [p for p, _ in mods]
     if not ran:
         raise common.InfraError("no C08 part available")
     chk.part("parts", ran=ran)
